@@ -14,7 +14,7 @@ CodeOk(r) == CloseDataOk(r.code, r.reason, r.err = "nil")
 
 BodyOk(r) ==
     LET want == CloseBody(r.code, r.reason) IN
-    /\ r.body = want /\ Len(r.body) <= 125
+    /\ r.body = want /\ Len(r.body) <= 125 /\ r.put = want
     /\ r.pcode = r.code /\ r.preason = Crop(r.reason)
     /\ r.ucode = r.code /\ r.ureason = Crop(r.reason)
 
